@@ -236,6 +236,8 @@ class QGen:
         cols = self.s.tables.get(t, ["id", "name"]) if t else ["id", "name", "n"]
         c = r.choice(cols)
         if self.corrupt and r.random() < self.corrupt:
+            if r.random() < 0.25:
+                return "zq.%s" % c          # a qualifier no relation in scope answers to
             c = r.choice(["nosuch", "idd", "bogus"])
         form = r.random()
         if form < 0.5:
